@@ -55,7 +55,7 @@ def ref_parse(qs, keep_blank, csv):
         name = ref_decode(k, True)
         if csv and ',' in v:
             vals = [ref_decode(e, True) for e in v.split(',') if (keep_blank or e)]
-            is_list = True
+            is_list = True     # may be empty ('n=,' without keep_blank): the mapping keeps the empty list (pinned by falcon's tests)
         else:
             vals = [ref_decode(v, True)]
             is_list = False
@@ -172,9 +172,21 @@ def req_params_case(asgi, pattern, n, v, kb, csv):
             'ASGI' if asgi else 'WSGI', qs, kb, csv, g, exp))
     # get_param returns the LAST occurrence; has_param agrees
     for name, val in exp:
-        last = val[-1] if isinstance(val, list) and val else (None if isinstance(val, list) else val)
         if isinstance(val, list) and not val:
+            # every element was blank and dropped: the scalar getters have no value -- like a missing parameter, never an IndexError
+            try:
+                if req.get_param(name, default='D') != 'D' or req.get_param_as_int(name, default=7) != 7 \
+                        or req.get_param_as_bool(name, default=None) is not None or req.get_param_as_list(name) != []:
+                    return fail(lambda: 'getters on %r (all CSV elements blank) for %r' % (name, qs))
+                try:
+                    req.get_param(name, required=True)
+                    return fail(lambda: 'get_param(%r, required=True) returned for %r' % (name, qs))
+                except falcon.HTTPMissingParam:
+                    pass
+            except falcon.HTTPError:
+                raise
             continue
+        last = val[-1] if isinstance(val, list) else val
         if req.get_param(name) != last:
             return fail(lambda: 'get_param(%r) = %r, last occurrence is %r' % (name, req.get_param(name), last))
         if not req.has_param(name):
@@ -457,7 +469,8 @@ def partitions(tier, seed):
     # drop patterns that contain no x at all beyond length 2 in quick (pure punctuation): keep them, they are cheap
     P.extend(_group('parse', pats, 60 if q else 200, per=12 if q else 16))
     P.extend(_group('parse_long', LONG_PATTERNS, 150 if q else 600, per=1))
-    sel = ['x=x', 'a=x&a=x', 'x=x,x', 'x&x=', '%xx=x+x', 'a=x%2Cx,x'] if q else LONG_PATTERNS + ['x=x', 'x', 'x=x,x']
+    sel = ['x=x', 'a=x&a=x', 'x=x,x', 'x&x=', '%xx=x+x', 'a=x%2Cx,x', 'x=,', 'a=,&g=x,'] if q else \
+        LONG_PATTERNS + ['x=x', 'x', 'x=x,x', 'x=,', 'x=,,', 'a=,&g=x,', 'a=x&a=,']
     for asgi in (0, 1):
         P.extend(_group('params_%s' % ('asgi' if asgi else 'wsgi'), sel, 150 if q else 400, call='req_params_case',
                         extra='%d, ' % asgi, per=2 if q else 1))
